@@ -288,4 +288,9 @@ theorem used_flag_listed (e : Env) (G : Block) (x0 : WorldI) (evs : List EvL)
     exact used_iff hA (c := { e with own := (runL e x0 evs).own }.ctx (runL e x0 evs).w.chain) ho
       (by rw [ht]; exact hG)
 
+/-- the static part of a context, as the `Env` of the history theorems -/
+def envOf (c : Ctx) : Env := ⟨c.p, c.own, c.wallets, c.node.known⟩
+
+theorem ctx_envOf (c : Ctx) : (envOf c).ctx c.node.chain = c := rfl
+
 end MW.Lemmas.LedgerFU
